@@ -13,7 +13,7 @@ RULE = ('cases = lhs (literal: quoted string in either quote style, integer, flo
         'depth 1-4, including spellings that look like literals such as None / True.x / 1.5) x rhs (literal text, '
         '%(key)s, mixed prefix%(key)s) x credentials from a recursive generator (dicts, lists of dicts, lists of lists, '
         'every JSON scalar at every position, missing siblings) x flat targets with every JSON scalar type x context '
-        '(alone, under not, beside constants). Non-trivial = the reference allows, or the path runs into a list / a '
+        '(alone, under not, beside constants). Strata `context-sequence` (a RequestContext whose attributes are rebound / which is copied between calls) and `overlap` (two requests evaluating the same check at the same time, every single pre-emption). Non-trivial = the reference allows, or the path runs into a list / a '
         'non-container / a missing key; distinct = distinct (rule, target, creds).')
 ASSUMPTIONS = ['str() of a Python value is the "string form" the statement means',
                'one corner is left unconstrained (deny or recursive any-match accepted, raising not accepted): a list '
@@ -23,7 +23,7 @@ LEVEL_TEXT = ('Seeded sampling of (check, credentials, target) with an independe
               'generator puts every JSON type at every path position, which is where the failure modes live.')
 LEVEL_NOTE = 'trusted: the reference walk (20 lines, from the statement); Python str() as string form'
 PLAN = {'quick': dict(shards=4, wall=60), 'thorough': dict(shards=16, wall=400)}
-MIN = {'evaluations': 5000, 'allow_decisions': 150, 'deny_decisions': 1000, 'list_fanout_cases': 200}
+MIN = {'evaluations': 5000, 'allow_decisions': 150, 'deny_decisions': 1000, 'list_fanout_cases': 200, 'context_sequence_decisions': 500, 'overlapping_evaluations': 100}
 ANCHORS = ['oslo_policy._checks:GenericCheck.__call__', 'oslo_policy._checks:GenericCheck._find_in_dict',
            'oslo_policy.policy:Enforcer.enforce']
 REQUIRED_ANCHORS = ['oslo_policy.policy:Enforcer.enforce']
@@ -198,6 +198,68 @@ def check_case(ctx, real, case):
                                   'expected': want, 'observed': got})
 
 
+def check_context_sequence(ctx, real, rnd):
+    """Credentials given as a RequestContext whose attributes the service rebinds between calls (and copies of it):
+    every call is decided on the attribute values at that moment."""
+    from oslo_context import context
+    import copy as _copy
+    policy, enf = real
+    attr = rnd.choice(['project_id', 'user_id', 'domain_id'])
+    rule = rnd.choice(['%s:%%(v)s' % attr, 'not %s:%%(v)s' % attr, '%s:%%(v)s and @' % attr])
+    enf.set_rules(policy.Rules.from_dict({'p': rule}))
+    c = context.RequestContext(**{attr: 'v0', 'roles': ['r']})
+    cur = 'v0'
+    for step in range(rnd.randint(2, 5)):
+        op = rnd.choice(['rebind', 'rebind', 'copy', 'none'])
+        if op == 'rebind':
+            cur = rnd.choice(['v0', 'v1', 'v2', None])
+            setattr(c, attr, cur)
+        elif op == 'copy':
+            c = _copy.copy(c)
+            cur = rnd.choice(['v1', 'v3'])
+            setattr(c, attr, cur)
+        tv = rnd.choice(['v0', 'v1', 'v2', 'v3', 'None'])
+        want = (str(cur) == tv)
+        if rule.startswith('not '):
+            want = not want
+        try:
+            got = bool(enf.enforce('p', {'v': tv}, c))
+        except Exception as e:
+            got = 'EXC:' + type(e).__name__
+        ctx.count('context_sequence_decisions')
+        if got != want:
+            ctx.violation('stale-credentials-from-request-context', dict(context_sequence=True, rule=rule, attr=attr),
+                          {'rule': rule, 'attribute': attr, 'value_now': cur, 'target_value': tv, 'step': step, 'op': op,
+                           'expected': want, 'observed': got})
+            return
+    ctx.case(['ctx-seq', rule, attr], nontrivial=True, stratum='context-sequence')
+
+
+def check_overlap(ctx, real, rnd):
+    """Two requests evaluate the same attribute check at the same time with different targets (deterministic scheduler,
+    every single pre-emption of one by the other): each is decided as if it ran alone."""
+    from pv.mon import sched
+    policy, enf = real
+    rule = rnd.choice(['project_id:%(pid)s', 'not project_id:%(pid)s', "'p1':%(pid)s", 'a.b:%(pid)s or project_id:%(pid)s'])
+    enf.set_rules(policy.Rules.from_dict({'p': rule}))
+    creds = {'project_id': 'p2', 'a': {'b': 'zz'}, 'roles': []}
+
+    def mk(pid):
+        return lambda: (lambda: bool(enf.enforce('p', {'pid': pid}, dict(creds))))
+    ref = None
+    for k, ra, rb in sched.overlap_results(mk('p1'), mk('p2')):
+        ctx.count('overlapping_evaluations')
+        if k == 0:
+            ref = (ra, rb)
+            continue
+        if (ra, rb) != ref:
+            ctx.violation('decision-depends-on-a-concurrent-evaluation', dict(overlap=True, rule=rule),
+                          {'rule': rule, 'credentials': creds, 'targets': ['p1', 'p2'], 'alone': list(ref), 'overlapping': [ra, rb],
+                           'a_preempted_at_boundary': k})
+            return
+    ctx.case(['overlap', rule], nontrivial=True, stratum='overlap')
+
+
 def run(ctx):
     from oslo_policy import policy
     enf = policy.Enforcer(env.fresh_conf(), use_conf=False)
@@ -209,7 +271,17 @@ def run(ctx):
         check_case(ctx, (policy, enf), case)
         if i % 8000 == 0:
             ctx.sample({'rule': rule_text(case), 'target': case['target'], 'creds': case['creds']})
+        if i % 40 == 0:
+            check_context_sequence(ctx, (policy, enf), ctx.rnd)
     ctx.stratum('random', exhaustive=False)
+    from pv.mon import sched
+    try:
+        for i in range(12 if ctx.tier == 'quick' else 200):
+            if ctx.expired():
+                break
+            check_overlap(ctx, (policy, enf), ctx.rnd)
+    finally:
+        sched.uninstall()
 
 
 def replay(ctx, case):
